@@ -627,6 +627,10 @@ func (e *Exec) evalGhostBuiltin(st *State, call *ast.CallExpr, name string) Term
 		tv, _ := e.tvOf(call.Args[1])
 		e.declDyn()
 		want := strings.Trim(tv.Value.ExactString(), "\"")
+		if o, ok := types.Universe.Lookup(want).(*types.TypeName); ok {
+			id := e.dynID(o.Type())
+			return And(Not(Eq(v, Int(0))), Eq(app(SInt, "dyntype", v), Int(int64(id))))
+		}
 		for k, id := range e.dynIDs {
 			if k == want || strings.HasSuffix(k, "."+want) || strings.HasSuffix(k, "/"+want) {
 				return And(Not(Eq(v, Int(0))), Eq(app(SInt, "dyntype", v), Int(int64(id))))
